@@ -9,6 +9,8 @@ import XpDriver.C12
 import XpDriver.C13
 import XpDriver.C19
 import XpDriver.C07
+import XpDriver.C08
+import XpDriver.C20
 open Lean Xp Xp.Proto
 
 def dispatch (op : String) (j : Json) : R Json :=
@@ -33,6 +35,14 @@ def dispatch (op : String) (j : Json) : R Json :=
   | "wls" => Ops.wls j
   | "kshap_probs" => Ops.kshapProbs j
   | "kshap_sample" => Ops.kshapSample j
+  | "sobol_design" => Ops.sobolDesign j
+  | "sobol_est" => Ops.sobolEst j
+  | "sobol_glen" => Ops.sobolGlen j
+  | "hsic" => Ops.hsic j
+  | "gsa" => Ops.gsa j
+  | "craft_patches" => Ops.craftPatches j
+  | "craft_chunks" => Ops.craftChunks j
+  | "craft_importance" => Ops.craftImportance j
   | _ => throw "bad-op"
 
 def step (line : String) : String :=
